@@ -621,23 +621,33 @@ _DUAL = {"||": "&&", "&&": "||", "Or": "And", "And": "Or"}
 
 
 def _de_morgan(c):
-    """for a `||` (or `&&`) tree ALL of whose leaves are negations: the dual tree over the un-negated leaves, else None"""
+    """for a `||` (or `&&`) tree ALL of whose leaves are negations: the dual tree over the un-negated leaves; for a `||` tree with SOME
+    negated leaves (`a || !b`): the `&&` tree over the complemented leaves (`!a && b`) -- the caller swaps the branches in both cases; a tree
+    without any negated leaf is left alone (None)"""
     if c.get("k") != "Binary" or c.get("op") not in _DUAL:
         return None
     op = c["op"]
+
+    def leaves_(n):
+        n = strip(n)
+        while n.get("k") == "DropTemps":
+            n = strip(n["e"])
+        if n.get("k") == "Binary" and n.get("op") == op:
+            return leaves_(n["l"]) + leaves_(n["r"])
+        return [n]
+    negs = [n.get("k") == "Unary" and n.get("op") in ("!", "Not") for n in leaves_(c)]
+    if not any(negs) or (not all(negs) and op not in ("||", "Or")):
+        return None
 
     def conv(n):
         n = strip(n)
         while n.get("k") == "DropTemps":
             n = strip(n["e"])
         if n.get("k") == "Binary" and n.get("op") == op:
-            l, r = conv(n["l"]), conv(n["r"])
-            if l is None or r is None:
-                return None
-            return dict(n, op=_DUAL[op], l=l, r=r)
+            return dict(n, op=_DUAL[op], l=conv(n["l"]), r=conv(n["r"]))
         if n.get("k") == "Unary" and n.get("op") in ("!", "Not"):
             return strip(n["e"])
-        return None
+        return {"k": "Unary", "op": "!", "e": n, "ty": "bool", "line": n.get("line"), "exp": False}
     return conv(c)
 
 def leaves(e):
